@@ -5,6 +5,7 @@
 -/
 import QV.Proofs.ServerQuery
 import QV.Proofs.ServerNoErr
+import QV.Proofs.HmacLen
 
 namespace QV.ServerSafety
 open QV QV.Writer QV.Server QV.Reader
@@ -39,8 +40,11 @@ theorem finish_ok (s : State) (macFn : Writer.Tsig → List UInt8 → List UInt8
 
 /-! ### the MAC of the response fits the reservation -/
 
-/-- SHA-1 / SHA-256 tags have the algorithm's output size (to be discharged for the SHA model) -/
+/-- SHA-1 / SHA-256 tags have the algorithm's output size -/
 def HmacLenOK : Prop := ∀ alg key data, (Tsig.realHmac alg key data).length = alg.outputSize
+
+/-- … which is a theorem about the SHA model (C11, `QV.Tsig.realHmac_length`) -/
+theorem hmacLenOK : HmacLenOK := Tsig.realHmac_length
 
 theorem signResponse_mac {ε : Type} (hm : Tsig.Algorithm → Tsig.Octets → Tsig.Octets → Tsig.Octets)
     (p : Tsig.PreparedTsigRr) (m pm : Tsig.Octets) (alg : Tsig.Algorithm) (key x mac : Tsig.Octets)
@@ -143,10 +147,13 @@ theorem prog_safe (cfg : Cfg) (hcfg : CfgWF cfg) (tr : Transport) (now : Nat) (h
     · exact noErr_bind (noErr_setRd _) (fun _ => noErr_handleWithContext _ _ _ _)
     · exact noErr_handleWithContext _ _ _ _
 
-/-- **L4**: `handle_message` never panics -/
-theorem handleMessage_no_panic (W : WriterSafe) (cfg : Cfg) (hcfg : CfgWF cfg) (tr : Transport) (now bufLen : Nat)
+/-- **L4**: what `handle_message` returns: no response, or the octets `finish` produced from a
+    writer state satisfying the writer invariant — never a panic -/
+theorem handleMessage_cases (W : WriterSafe) (cfg : Cfg) (hcfg : CfgWF cfg) (tr : Transport) (now bufLen : Nat)
     (req : Bytes) (henv : EnvOK cfg tr now bufLen req) (hmac : MacLenOK macFn) :
-    handleMessage cfg tr now bufLen req ≠ .panic := by
+    handleMessage cfg tr now bufLen req = .ok none ∨
+    ∃ w1 b mac, W.I w1 ∧ Writer.finish w1 macFn = .ok (b, mac) ∧
+      handleMessage cfg tr now bufLen req = .ok (some b) := by
   have hbuf := henv.buf
   have hpay := hcfg.payload
   have key := fun r0 hr0 id opc rdv w0 hI0 hs hq =>
@@ -163,7 +170,7 @@ theorem handleMessage_no_panic (W : WriterSafe) (cfg : Cfg) (hcfg : CfgWF cfg) (
     · omega
     · cases htf : Reader.tryFrom req with
       | panic => exact absurd htf (C15.C15_tryFrom_total req)
-      | err e => simp
+      | err e => exact Or.inl rfl
       | ok r0 =>
         have hinv := C15.C15_tryFrom_inv req r0 htf
         have hr0 : RInv r0 := by
@@ -181,7 +188,7 @@ theorem handleMessage_no_panic (W : WriterSafe) (cfg : Cfg) (hcfg : CfgWF cfg) (
           ⟨_, C15.flag_ok r0 Gen.RD_BYTE Gen.RD_MASK (by rw [c.2.1]; omega)⟩
         simp only [eqr, eid, hopc, erd]
         cases qrv with
-        | true => simp
+        | true => exact Or.inl rfl
         | false =>
           simp only [Bool.false_eq_true, if_false]
           obtain ⟨w0, hnew, hsect, hqd⟩ := hn
@@ -194,8 +201,9 @@ theorem handleMessage_no_panic (W : WriterSafe) (cfg : Cfg) (hcfg : CfgWF cfg) (
             have e : prog cfg _ now r0 (be16 r0.octets 0) opc rdv w0 = (.ok true, w1) := heq
             rw [e] at hp2
             obtain ⟨bytes, mac, hf⟩ := finish_ok W w1 macFn hp2 hmac
-            rw [hf]; simp
-          · simp
+            rw [hf]
+            exact Or.inr ⟨w1, bytes, mac, hp2, hf, rfl⟩
+          · exact Or.inl rfl
           · rename_i hn1 hn2
             generalize hres : prog cfg _ now r0 (be16 r0.octets 0) opc rdv w0 = res at hp1 hp2 hne'
             obtain ⟨o, w1⟩ := res
@@ -206,5 +214,12 @@ theorem handleMessage_no_panic (W : WriterSafe) (cfg : Cfg) (hcfg : CfgWF cfg) (
               cases b with
               | true => exact absurd hres (hn1 w1)
               | false => exact absurd hres (hn2 w1) )
+
+/-- **L4**: `handle_message` never panics -/
+theorem handleMessage_no_panic (W : WriterSafe) (cfg : Cfg) (hcfg : CfgWF cfg) (tr : Transport) (now bufLen : Nat)
+    (req : Bytes) (henv : EnvOK cfg tr now bufLen req) (hmac : MacLenOK macFn) :
+    handleMessage cfg tr now bufLen req ≠ .panic := by
+  rcases handleMessage_cases W cfg hcfg tr now bufLen req henv hmac with h | ⟨_, _, _, _, _, h⟩ <;>
+    rw [h] <;> simp
 
 end QV.ServerSafety
